@@ -3,5 +3,6 @@ CONSTANT MaxKindsWrapped = 0
 CONSTANT Wraps = {}
 CONSTANT Orders = {}
 CONSTANT Aliases = {}
+CONSTANT HookWraps = {}
 INIT TInit
 NEXT TNext
